@@ -59,6 +59,12 @@ RustAgrees(e) ==
       [] e.rres \in {"yes", "no"}  -> (e.ret = 1) = (e.rres = "yes")
       [] e.rres \in {"rd_ok", "rd_fail", "rd_none"} -> (e.ret > 0) = (e.rres = "rd_ok")   \* OpenFileEx / ExtractFile
       [] OTHER -> TRUE
+\* Lock discipline observed on the real code (verif_sync hook, "lockorder" histories): at every lock acquisition of
+\* the call the driver probed which table locks were held; each acquisition must respect StormFfi!LockOrder -- the
+\* design invariant LockOrderInv that TLC checks on the model and that rules out wait cycles for EVERY interleaving,
+\* without the race having to fire.
+LockOrderRespected(e) ==
+    e.lt => \A i \in 1..Len(e.locks) : AcqRespects(e.locks[i].l, ToSet(e.locks[i].held))
 RetOk(e) ==
     /\ e.st = "ok"                        \* no hang, abort or panic
     /\ e.canary                           \* nothing written outside the caller's buffer
@@ -66,7 +72,8 @@ RetOk(e) ==
     /\ e.ret = vret[e.th].ret
     /\ OutMatches(e, vret[e.th])
     /\ RustAgrees(e)
-Why(e) == IF ~e.canary THEN "canary" ELSE IF e.ret # vret[e.th].ret THEN "ret"
+    /\ LockOrderRespected(e)
+Why(e) == IF ~LockOrderRespected(e) THEN "lockorder" ELSE IF ~e.canary THEN "canary" ELSE IF e.ret # vret[e.th].ret THEN "ret"
           ELSE IF ~OutMatches(e, vret[e.th]) THEN "out" ELSE IF ~RustAgrees(e) THEN "rust" ELSE "other"
 T_Ret ==
     /\ Ev.ev = "Ret" /\ tpend[Ev.th] /\ vpc[Ev.th] = "Idle"
@@ -76,13 +83,16 @@ T_Ret ==
        ELSE PrintT(<<"DRIFT", tl, Ev.fn \o ": last error " \o Ev.err \o ", model " \o vret[Ev.th].err>>)
     /\ tpend' = [tpend EXCEPT ![Ev.th] = FALSE]
     /\ Advance /\ UNCHANGED <<vars, tkind>>
-\* Single-thread histories are deterministic: a returned call whose observation differs from the model's
+\* Single-thread histories are deterministic except for the model's explicit choices: a returned call whose observation differs from the model's
 \* result is reported (BAD) and the history continues from the MODEL's state, so that the remaining events
 \* are examined too (the check counts only the first BAD of a history for the verdict; later ones may be
 \* consequences and are listed as secondary).  Hangs / aborts end the process and stay unexplained.
 T_RetBad ==
     /\ Ev.ev = "Ret" /\ tkind = "seq" /\ tpend[Ev.th] /\ vpc[Ev.th] = "Idle"
     /\ Ev.st = "ok" /\ vret[Ev.th].fn = Ev.fn /\ ~RetOk(Ev)
+    \* not for the calls whose model outcome is a choice (seek before the start, read error on a writable archive,
+    \* add over an existing name): there another branch may explain the event; they stay guard-style
+    /\ Ev.fn \notin {"SetFilePointer", "OpenFileEx", "ExtractFile", "AddFile"}
     /\ PrintT(<<"BAD", tl, Why(Ev)>>)
     /\ tpend' = [tpend EXCEPT ![Ev.th] = FALSE]
     /\ Advance /\ UNCHANGED <<vars, tkind>>
